@@ -105,7 +105,7 @@ class Gen:
             self.emit('OP %d excl %d %d %d' % (self.owner[h], h, t, r.choice([0, 1, 1])))
         elif k == 'asset':
             kind = r.choice([0, 0, 1, 2, 3])
-            a = r.randint(1, 4)
+            a = 10 * (kind + 1) + r.randint(1, 3)      # ids of different kinds never collide (random uuids in practice)
             self.emit('OP %d addasset %d %d %d' % (p, kind, a, self.fresh_val()))
         elif k == 'asseti':
             self.emit('OP %d addasset_index %d %d' % (p, r.choice([0, 1, 2, 3]), self.fresh_val()))
@@ -144,7 +144,7 @@ class Gen:
                 self.emit('OP %d reg %d' % (p, t))
         late = set()
         if late_join is None:
-            late_join = r.random() < 0.5
+            late_join = r.random() < 0.5 and self.profile != 'skinned'
         if late_join and self.n > 2:
             late = {self.n - 1}
         if pre_marks is None:
@@ -384,7 +384,8 @@ def optin(seed, nops=16):
             lines.append('OP %d write %d %d %d' % (owner, hh, t, val))
         elif c < 0.8:
             val += 1
-            lines.append('OP %d addasset %d %d %d' % (p, r.choice([0, 1, 2, 3]), 10 * p + r.randint(1, 3), val))
+            kk = r.choice([0, 1, 2, 3])
+            lines.append('OP %d addasset %d %d %d' % (p, kk, 100 * (kk + 1) + 10 * p + r.randint(1, 3), val))
         elif c < 0.9:
             val += 1
             lines.append('OP %d addasset_index %d %d' % (p, r.choice([0, 1, 2, 3]), val))
@@ -442,7 +443,8 @@ def join(seed, nops=14):
                 parent[c1] = c2
         else:
             val += 1
-            lines.append('OP %d addasset %d %d %d' % (p, r.choice([0, 1, 2, 3]), 10 * p + r.randint(1, 2), val))
+            kk = r.choice([0, 1, 2, 3])
+            lines.append('OP %d addasset %d %d %d' % (p, kk, 100 * (kk + 1) + 10 * p + r.randint(1, 2), val))
         if r.random() < 0.8:
             _pace(r, lines, peers + ([joiner] if i >= when else []))
     lines.append('SLEEP 60')
